@@ -1,7 +1,7 @@
 from corr import kern_family
 from oracles import c13 as oracle
 
-GEN = ["Const"]
+GEN = ["Const", "Tol"]
 LEAN_TARGETS = ["MagpyVerif.Props.C13"]
 PROPS = ["MagpyVerif.Props.C13"]
 NOT_SHOWN = {
